@@ -78,3 +78,11 @@ claim("C07", "other", "normalisation typing of ring offsets (Norm/Raw) with curr
       "Does NOT decide that the contents equal the reference deque (order, loss, duplication) nor slice.Rotate's own correctness.",
       BASE_NOTE + " The struct invariant 0<=head<len, 0<=n<=len is assumed at method entry and re-established by the obligations (inductive).",
       "DESIGN.md section 3, C07")
+claim("C08", "other", "in-block pairing of departures with callback/size/count effects, loop-exit fact for the size bound, effect summary (purity) of Check, clock tick pairing",
+      "Decides the accounting clauses structurally: each departure from the store (Remove of a key found by Check, or Evict) is paired with exactly one eviction callback on that "
+      "very (key, value), one size -= sizeOf(value) and one count-1, and none of these happens without a departure; an arrival is paired with count+1 and a size that includes "
+      "sizeOf(val); size only ever receives a value proved <= limit by the exit edge of the eviction loop `for size > limit` (or decreases by a sizeOf result); a Put larger than "
+      "the limit is refused before any effect; Has uses only Store.Check, which (transitively) has no effects; every lastAccess is a freshly ticked clock value. "
+      "Does NOT decide which entry is evicted (needs a correct heap - C05/F1 - and a history argument) nor agreement with a reference LRU cache.",
+      BASE_NOTE + " Assumes the size function is non-negative.",
+      "DESIGN.md section 3, C08")
